@@ -72,6 +72,45 @@ partial def tyOptToJson : Option Ty → Json
   | some t => tyToJson t
 end
 
+mutual
+/-- exact structural equality (not the IR's `==`) used to compare a model result with the
+    exported result of the implementation -/
+def structEq : Ty → Ty → Bool
+  | .builtin c n nt p ss, .builtin c' n' nt' p' ss' => c == c' && n == n' && nt == nt' && p == p' && structEqL ss ss'
+  | .simple n ss, .simple n' ss' => n == n' && structEqL ss ss'
+  | .tparam n v b, .tparam n' v' b' => n == n' && v == v' && structEqO b b'
+  | .wild v b, .wild v' b' => v == v' && structEqO b b'
+  | .tcon c n ps ss, .tcon c' n' ps' ss' => c == c' && n == n' && structEqL ps ps' && structEqL ss ss'
+  | .param n con as ss, .param n' con' as' ss' => n == n' && structEq con con' && structEqL as as' && structEqL ss ss'
+  | .nothing, .nothing => true
+  | .ext c, .ext c' => c == c'
+  | _, _ => false
+def structEqL : List Ty → List Ty → Bool
+  | [], [] => true
+  | x :: xs, y :: ys => structEq x y && structEqL xs ys
+  | _, _ => false
+def structEqO : Option Ty → Option Ty → Bool
+  | none, none => true
+  | some x, some y => structEq x y
+  | _, _ => false
+end
+
+/-- answer of a type-valued op: `true` when the request carries `"expect": idx` and the model's
+    result equals it structurally, else the canonical tree of the model's result -/
+def answerTy (tbl : Array Ty) (j : Json) (r : Ty) : Json :=
+  match j.getObjVal? "expect" with
+  | .ok e => (match e.getNat? with
+      | .ok i => (match tbl[i]? with
+          | some x => if structEq r x then Json.bool true else tyToJson r
+          | none => tyToJson r)
+      | .error _ => tyToJson r)
+  | .error _ => tyToJson r
+
+def answerTyOpt (tbl : Array Ty) (j : Json) (r : Option Ty) : Json :=
+  match r with
+  | some t => answerTy tbl j t
+  | none => Json.null
+
 def resToJson : Ty.Res → Json
   | .yes => Json.bool true
   | .no => Json.bool false
